@@ -309,7 +309,7 @@ func runC05(c *RuleCtx) {
 				found := false
 				ast.Inspect(n, func(x ast.Node) bool {
 					if u, ok := x.(*ast.UnaryExpr); ok && u.Op == token.ARROW {
-						if v := p.R(f).Val(u.X); v.Kind == "var" && v.Name == "firstMessage" {
+						if v := p.R(f).Val(u.X); isParam(f, 3)(v) {
 							found = true
 						}
 					}
@@ -387,7 +387,7 @@ func runC05(c *RuleCtx) {
 				}
 				return false
 			})
-			subA := AtomBool("announcing a subscription", func(v *V) bool { return v.Kind == "var" && v.Name == "sub" })
+			subA := AtomBool("announcing a subscription", isParam(thunk, 2))
 			paths, err := g.EnumPaths([]NamedAtom{{"held", held}, {"sub", subA}}, 128)
 			if err != nil {
 				c.Undecided("R05.5", f.Name, "retry thunk paths", thunk.Lit, err.Error())
@@ -477,7 +477,15 @@ func runC05(c *RuleCtx) {
 		g := p.Graph(f)
 		var subsLoop *ast.RangeStmt
 		for _, r := range p.RangesOver(f, func(v *V) bool {
-			return v.Has(func(x *V) bool { return x.IsCall("pb.(*RPC).GetSubscriptions") }) || (v.Kind == "var" && v.Name == "subs")
+			return v.Has(func(x *V) bool { return x.IsCall("pb.(*RPC).GetSubscriptions") }) || (v.Kind == "var" && v.Obj != nil && func() bool {
+				// the (possibly filtered) local that holds the RPC's subscriptions
+				for _, d := range p.R(f).Defs(v.Obj) {
+					if d.rhs != nil && p.R(f).Val(d.rhs).Has(func(x *V) bool { return x.IsCall("pb.(*RPC).GetSubscriptions") }) {
+						return true
+					}
+				}
+				return false
+			}())
 		}) {
 			subsLoop = r
 		}
@@ -492,8 +500,8 @@ func runC05(c *RuleCtx) {
 			filtErr := AtomCmp("filter error != nil", func(v *V) bool {
 				return v.Kind == "tuple" && v.Name == "1" && v.Args[0].IsCall("SubscriptionFilter.FilterIncomingSubscriptions")
 			}, "!=", isNilV)
-			anyErr := AtomCmp("err != nil", func(v *V) bool { return v.Kind == "var" && v.Name == "err" }, "!=", isNilV)
-			cut := edgeCut(g.AtomEdges(inspErr, true), g.AtomEdges(filtErr, true), g.AtomEdges(anyErr, true))
+			anyErr := AtomCmp("err != nil", isErrorVar, "!=", isNilV)
+			cut := g.CutAny(AtomWant{inspErr, true}, AtomWant{filtErr, true}, AtomWant{anyErr, true})
 			ok, _ := g.MustPass(g.Entry(), PassOpts{Cut: cut}, func(n ast.Node) bool { return n == ast.Node(subsLoop.X) })
 			c.Check(ok, "R05.6", f.Name, "subscriptions of every inspected RPC are processed", subsLoop, "the loop is on every path except inspector rejection / filter error", "an RPC can be dropped before its subscription announcements are processed")
 			if early, n := LoopHasEarlyExit(subsLoop); early {
